@@ -14,13 +14,13 @@ var propMeta = map[string][2][]string{
 		{"counters at 2^32-1", "states beyond 2x3 / 3x4 except via induction"}},
 	"C03": {{"encoding/json modelled by key matching over go/types (field names, tags, text marshalers)", "AEAD/keyset as Dolev-Yao blobs: decrypt succeeds iff same key and associated data", "file write atomic (C04)"},
 		{"fidelity of encoding/json and tink themselves", "opening actual files written by the pinned release (a concrete test, not a solver query)"}},
-	"C04": {{"rename(2) is atomic and ordered after the preceding fsync; unsynced content is arbitrary after a kill", "kill points are file-system call boundaries"},
+	"C04": {{"rename(2) is atomic and ordered after the preceding fsync; unsynced content is arbitrary after a kill", "kill points are file-system call boundaries", "failing file-system calls return the os package's error types (*fs.PathError with the call's Op, *os.LinkError for rename/link); os.Link gives a second name to the same inode"},
 		{"directory fsync (atomicfile does not do it)", "kernel and file-system behaviour beyond the model", "native fault injection (the counterexamples of this property are model-only)"}},
-	"C05": {{"AEAD is authenticated encryption (no forgery; wrong key, context or ciphertext fails)", "confidentiality is decided structurally on the blob tree handed to the file system"},
+	"C05": {{"AEAD is authenticated encryption (no forgery; wrong key, context or ciphertext fails)", "confidentiality is decided structurally on the blob tree handed to the file system", "a damaged live file is opened in place, with everything else save left in the directory still there (up to two generations)"},
 		{"strength of XChaCha20-Poly1305/tink", "bit flips and truncation of real ciphertext (represented by 'arbitrary bytes' and splice classes)", "scanning real file bytes for markers"}},
-	"C06": {{"json.Encoder.Encode = one Write of the entry document to the sink", "sink Write/Sync may fail at any call"},
+	"C06": {{"json.Encoder.Encode = one Write of the entry document to the sink", "sink Write/Sync may fail at any call; a failing Write takes nothing or (SinkRecovers harness) a non-empty proper prefix of the record, and the sink may accept writes again afterwards", "an Encode line ends with its only newline"},
 		{"non-interleaving of concurrent records (O_APPEND + one write(2) per Encode, kernel)", "only the flags of os.OpenFile for the audit file are checked (in C05)"}},
-	"C07": {{"regexp.QuoteMeta(p) as a regular expression matches exactly the literal p", "the regexp matcher implements the AST produced by regexp/syntax", "strings are sequences of Unicode scalar values (valid UTF-8)"},
+	"C07": {{"regexp.QuoteMeta(p) as a regular expression matches exactly the literal p", "the regexp matcher implements the AST produced by regexp/syntax", "strings are sequences of Unicode scalar values (valid UTF-8) whose len is their number: exact for ASCII; code that depends on runes versus bytes is reported undecided", "unquoted symbolic pattern fragments are instantiated from a fixed list of regexp-syntax samples (incl. \\E, \\Q)"},
 		{"invalid UTF-8 patterns (MustCompile panics; not reachable through JSON)", "pieces longer than 3 and names longer than 8/12 code points, more than 2/3 stars"}},
 	"C08": {{"net/http header lookup, WhoIs, capability decoding, netip parsing and the nine db.DB methods are nondeterministic stubs", "a body that is not JSON makes the decoder report an error (contract)"},
 		{"net/http routing and header canonicalisation", "real JSON syntax", "WhoIs itself", "the HTML dashboard"}},
@@ -34,7 +34,7 @@ var propMeta = map[string][2][]string{
 	"C13": {{"encoding/json contract model, including the outcome 'error with a partially filled target'", "FS model of C04 for the cache file"},
 		{"byte-level fuzzing of the real decoder", "directory fsync"}},
 	"C14": {{"single mutex + exactly one critical section per method => atomic => linearizable with the linearization point inside the section (trusted reasoning); the sequential step is C02's"},
-		{"the race detector on the real binary", "audit.Writer/json.Encoder/metrics internals", "HTTP-level concurrency"}},
+		{"the race detector on the real binary", "audit.Writer/json.Encoder/metrics internals", "HTTP-level concurrency", "responses other than info/list are checked for stability by C18 (copy-out of values)"}},
 	"C15": {{"the builder callback may fail and may be overtaken by an install (re-entrant harness)"}, {"more than one concurrent Get caller (rests on Updater.mu)", "histories longer than 4/6 events"}},
 	"C16": {{"StoreClient contract: a request returns a context error only if its context ended, and returns promptly once it ends", "singleflight: leader runs the function inline; a follower receives the result of the other caller's execution of the same code"},
 		{"singleflight's own implementation", "more than one follower generation", "real timers"}},
@@ -42,7 +42,7 @@ var propMeta = map[string][2][]string{
 		{"the AWS SDK, S3, makeS3Client", "real time", "more than 2/4 loop rounds"}},
 	"C18": {{"every JSON/base64 hop other than byteString's marshalers is the JSON contract", "'valid UTF-8 text with surrounding whitespace' is defined by utf8.Valid and bytes.TrimSpace"},
 		{"values longer than the bound, megabyte values", "flag parsing, the terminal prompt branch, the built binary's exit status"}},
-	"C19": {{"time.Time arithmetic is a contract stub over mathematical integers (saturating Sub)"}, {"time.Time internals", "real clocks"}},
+	"C19": {{"time.Time arithmetic is a contract stub over mathematical integers (saturating Sub)", "sums and differences of clock-derived int64 values computed by repository code wrap at +-2^63; products do not"}, {"time.Time internals", "real clocks"}},
 	"C20": {{"reflect is a go/types-backed model of the 17 operations the code uses"},
 		{"PARTIAL: struct shapes are a fixed family, not 'all shapes generated at run time'", "JSON decoding of field values beyond the syntactic-class contract (exactly one document / trailing bytes / not a document)", "embedding by pointer or deeper than one level"}},
 }
